@@ -225,7 +225,11 @@ func pureCallee(fn *types.Func) bool {
 		if isMethod {
 			// methods of value types of these packages (url.URL.String, strings.Replacer.Replace ...) read only
 			_, ptr := sig.Recv().Type().(*types.Pointer)
-			return !ptr || p == "net/url" || p == "strings" && !strings.HasPrefix(fn.FullName(), "(*strings.Builder)")
+			if !ptr {
+				return true
+			}
+			full := fn.FullName()
+			return strings.HasPrefix(full, "(*strings.Replacer)") || (p == "net/url" && (strings.HasPrefix(full, "(*net/url.URL).") && !strings.Contains(full, "Unmarshal")))
 		}
 		return true
 	case "bytes":
